@@ -1,3 +1,4 @@
+import Oidc.Shapes
 import Oidc.Proofs.Codec
 import Oidc.Facts
 /-! # C18 — every cookie is HttpOnly, SameSite=Lax, Path=/, Secure when forced, under 4 KB (property theorems only)
@@ -51,5 +52,17 @@ example : chunkGob 2000 = 2058 := by decide
 example : lineLen ⟨false, false, 10⟩ 17 (chunkGob 2000) = 3824 := by decide
 example : lineLen ⟨true, false, 10⟩ 17 (chunkGob 2000) = 3856 := by decide
 example : lineLen ⟨true, true, 10⟩ 17 (chunkGob 3000) > 4096 := by decide
+
+/-! obligations against the regenerated program text of session.go: the functions these theorems rest on read, statement for
+    statement, as they did when the session model was written after them (`Oidc/Shapes.lean`) -/
+theorem text_SessionManager_getSessionOptions_ok : Oidc.Shapes.Text_SessionManager_getSessionOptions := by unfold Oidc.Shapes.Text_SessionManager_getSessionOptions; rfl
+theorem text_SessionData_Save_ok : Oidc.Shapes.Text_SessionData_Save := by unfold Oidc.Shapes.Text_SessionData_Save; rfl
+theorem text_SessionData_deleteStaleChunkCookies_ok : Oidc.Shapes.Text_SessionData_deleteStaleChunkCookies := by unfold Oidc.Shapes.Text_SessionData_deleteStaleChunkCookies; rfl
+theorem text_SessionData_SetAccessToken_ok : Oidc.Shapes.Text_SessionData_SetAccessToken := by unfold Oidc.Shapes.Text_SessionData_SetAccessToken; rfl
+theorem text_SessionData_SetRefreshToken_ok : Oidc.Shapes.Text_SessionData_SetRefreshToken := by unfold Oidc.Shapes.Text_SessionData_SetRefreshToken; rfl
+theorem text_SessionData_expireAccessTokenChunks_ok : Oidc.Shapes.Text_SessionData_expireAccessTokenChunks := by unfold Oidc.Shapes.Text_SessionData_expireAccessTokenChunks; rfl
+theorem text_SessionData_expireRefreshTokenChunks_ok : Oidc.Shapes.Text_SessionData_expireRefreshTokenChunks := by unfold Oidc.Shapes.Text_SessionData_expireRefreshTokenChunks; rfl
+theorem text_splitIntoChunks_ok : Oidc.Shapes.Text_splitIntoChunks := by unfold Oidc.Shapes.Text_splitIntoChunks; rfl
+theorem text_SessionData_Clear_ok : Oidc.Shapes.Text_SessionData_Clear := by unfold Oidc.Shapes.Text_SessionData_Clear; rfl
 
 end Oidc.Props.C18
